@@ -6,9 +6,11 @@ import (
 	"encoding/hex"
 	"fmt"
 	"math/rand"
+	"os"
 	"sort"
 	"strconv"
 	"strings"
+	"sync"
 	"time"
 
 	dbm "github.com/tendermint/tm-db"
@@ -116,6 +118,30 @@ func classify(err error, ev types.Evidence) string {
 	return "err-other:" + strings.ReplaceAll(s, " ", "_")
 }
 
+// guard: a panic of the code under test inside a verification is a result (the reactor's peer
+// goroutine recovers it; inside consensus it is a consensus failure)
+func guard(f func() error) (err error, panicked bool) {
+	defer func() {
+		if x := recover(); x != nil {
+			panicked = true
+		}
+	}()
+	return f(), false
+}
+
+func isDerived(s string) bool {
+	f := strings.Split(s, ".")
+	if len(f) != 5 {
+		return false
+	}
+	for _, x := range f {
+		if !isTok(x) {
+			return false
+		}
+	}
+	return true
+}
+
 func isInt(s string, ok bool) bool {
 	if !ok || s == "" {
 		return false
@@ -184,8 +210,20 @@ func execCase(cs core.Case) []string {
 	if c != nil && c.evDB != nil {
 		c.evDB.Close()
 	}
+	if f := os.Getenv("C11_DUMP"); f != "" { // debugging aid: every case with its outputs
+		dumpMu.Lock()
+		if fh, err := os.OpenFile(f, os.O_APPEND|os.O_CREATE|os.O_WRONLY, 0o644); err == nil {
+			for i, op := range cs.Ops {
+				fmt.Fprintf(fh, "%s\t%s\t%s\n", cs.ID, op, out[i])
+			}
+			fh.Close()
+		}
+		dumpMu.Unlock()
+	}
 	return out
 }
+
+var dumpMu sync.Mutex
 
 func execOp(cp **chain, op string) (res string) {
 	f := strings.Fields(op)
@@ -232,7 +270,37 @@ func execOp(cp **chain, op string) (res string) {
 			return "bad-op" // the model accepts an empty set; never generated (ValidatorSet would be nil)
 		}
 		T, _ := strconv.ParseInt(t, 10, 64)
-		c.blks = append(c.blks, blkDef{T, vals})
+		hh, okH := get("h")
+		cr, okR := get("cr")
+		cf, okF := get("cf")
+		if !isInt(hh, okH) || !isInt(cr, okR) || !okF {
+			return "bad-op"
+		}
+		H, _ := strconv.ParseInt(hh, 10, 64)
+		R, _ := strconv.ParseInt(cr, 10, 64)
+		if H != c.n()+1 || H > 250 {
+			return "bad-op"
+		}
+		var flags []int
+		if cf != "-" {
+			for _, x := range strings.Split(cf, ",") {
+				v, err := strconv.Atoi(x)
+				if err != nil || v < 0 {
+					return "bad-op"
+				}
+				flags = append(flags, v)
+			}
+		}
+		hashTok, okA := get("hash")
+		dTok, okD := get("d")
+		if !okA || !okD || !isTok(hashTok) || !isDerived(dTok) {
+			return "bad-op"
+		}
+		c.appendBlock(blkDef{t: T, vals: vals, round: int32(R), flags: flags})
+		gh, gd := headerToks(&c.blocks[H-1].Header)
+		if gh != hashTok || gd != dTok {
+			return "bad-op:derived-token hash=" + gh + " d=" + gd
+		}
 		return "ok"
 	}
 	if c == nil {
@@ -255,6 +323,9 @@ func execOp(cp **chain, op string) (res string) {
 			return "bad-op"
 		}
 		for k, v := range c.derived(d) {
+			if k == "ok" { // reference verdict for the oracle only (computed by the code under test)
+				continue
+			}
 			if m[k] != v {
 				return "bad-op:derived-token-" + k + "=" + v
 			}
@@ -311,7 +382,10 @@ func execOp(cp **chain, op string) (res string) {
 		if !d.vb { // the reactor / block decoding runs ValidateBasic first
 			return "err-basic " + c.view()
 		}
-		err := c.pool.AddEvidence(d.ev)
+		err, pan := guard(func() error { return c.pool.AddEvidence(d.ev) })
+		if pan {
+			return "panic " + c.view()
+		}
 		if e, ok := err.(*types.ErrInvalidEvidence); ok {
 			err = e.Reason
 		}
@@ -327,7 +401,10 @@ func execOp(cp **chain, op string) (res string) {
 				return "err-basic " + c.view()
 			}
 		}
-		err := c.pool.CheckEvidence(evList(ds))
+		err, pan := guard(func() error { return c.pool.CheckEvidence(evList(ds)) })
+		if pan {
+			return "panic " + c.view()
+		}
 		// verify's errors come back unwrapped and do not name the failing item: the canonical
 		// result of a check is pass / committed / duplicate / invalid (classes are observed via `add`)
 		r := "ok"
